@@ -227,7 +227,7 @@ def run_config(prop, cfg, exe, seed, budget, nworkers, tmp, runs_cap=10 ** 9, ch
         log.close()
         before = len(res["crashes"])
         _scan_worker_output(prop, exe, seed, outdir, tag, rc, res)
-        if len(res["crashes"]) > before and restarts < 4 and len(res["crashes"]) < 3:
+        if len(res["crashes"]) > before and restarts < 2 and len(res["crashes"]) < 2:
             # the worker died inside a run: a fresh process takes over the rest of its run indices
             pp = res["crashes"][-1][0]
             if pp:
@@ -335,6 +335,8 @@ def main():
                     cands.append(pp)
             seen_cls = set()
             for pp in cands[:3]:
+                if violations:
+                    break       # one confirmed, replayable violation decides the verdict
                 if chunk:
                     lineage = lambda r, ch=chunk, st=start: (st + ((r - st) // ch) * ch, 1)
                 else:
